@@ -494,6 +494,49 @@ pub fn run(ctx: &Ctx) -> i32 {
             }
         }
     });
+    // SIZE LADDER: one-loop polygons and bananas with 6..10 edges (12 in the thorough tier), numerically generic weights
+    // (the f64 probabilities do not add up to exactly one), the complete subset lattice of each
+    let mut big: Vec<OGraph> = vec![];
+    for ne in tier.pick(vec![6usize, 7, 8, 9, 10], vec![6, 7, 8, 9, 10, 11, 12]) {
+        let variants = if ne <= 8 { tier.pick(8, 24) } else { 2 };
+        for v in 0..variants {
+            let w: Vec<f64> = (0..ne).map(|e| 0.6 + ((e * 7 + v * 3 + ne) % 11) as f64 / 17.0).collect();
+            let poly: Vec<(u8, u8)> = (0..ne).map(|i| (i as u8, ((i + 1) % ne) as u8)).collect();
+            let all_ext: Vec<u8> = (0..ne as u8).collect();
+            if v % 2 == 0 {
+                big.push(mk(&poly, &vec![false; ne], &w, &all_ext, 3));
+            } else {
+                let w2: Vec<f64> = w.iter().map(|x| x + 0.55).collect();
+                big.push(mk(&poly, &vec![true; ne], &w2, &[], 3));
+            }
+            if v < 2 && ne <= 9 {
+                // banana with ne edges: weights around D/2 so that every sub-banana converges
+                let wb: Vec<f64> = w.iter().map(|x| x + 1.0).collect();
+                big.push(mk(&banana(ne - 1), &vec![true; ne], &wb, &[0, 1], 3));
+            }
+        }
+    }
+    let big_acc = par_for(big.len(), |i, acc| {
+        let g = &big[i];
+        if time_up() {
+            acc.inc("items_skipped_by_time_cap");
+            return;
+        }
+        let pre = precompute(g);
+        match exact_omegas(g, &pre) {
+            Some(ex) if ex.class == Class::MustOk && ex.dod as f64 >= 1e-9 * (1u64 << 60) as f64 => {}
+            _ => {
+                acc.inc("size_ladder_not_accepted");
+                acc.hist("size_ladder_not_accepted", &format!("E{}D{}m{}x{}", g.ne(), g.dim, g.massive.iter().filter(|m| **m).count(), g.externals.len()));
+                return;
+            }
+        }
+        acc.inc("size_ladder_configurations");
+        acc.hist("size_ladder_edges", &format!("E{}", g.ne()));
+        check_graph(g, acc, false);
+    });
+    acc.merge(big_acc);
+    acc.violations.sort_by(|a, b| (a.key.as_str(), a.what.as_str()).cmp(&(b.key.as_str(), b.what.as_str())));
     if acc.samples.is_empty() {
         acc.sample(json!({"note": "no accepted configuration"}));
     }
@@ -511,7 +554,7 @@ pub fn run(ctx: &Ctx) -> i32 {
         evaluations: acc.get("executions"),
         distinct_nontrivial: acc.get("selections_judged") + acc.get("dd_selections_judged"),
         exhaustive: true,
-        bounds: json!({"G-small": "ordered pairs over {0,1,2}, E=2..3", "G-mid": "E=4 strided", "D": tier.pick("3,4", "1..6"), "G5 margin": "1e-13*|g|"}),
+        bounds: json!({"G-small": "ordered pairs over {0,1,2}, E=2..3", "G-mid": "E=4 strided", "size-ladder": tier.pick("polygons and bananas E=6..10, complete lattice", "polygons and bananas E=6..12, complete lattice"), "D": tier.pick("3,4", "1..6"), "G5 margin": "1e-13*|g|"}),
         assumptions: vec!["removal order observed through the `log` feature (unrescaled parameters strictly decrease when all xi = 1/2)".into()],
         extra,
     };
